@@ -205,6 +205,14 @@ pub fn gen_history(rng: &mut Rng, cap: usize, max_ops: usize) -> Vec<WOp> {
                     (0, _) => rng.usize(64),
                     (_, 1) => cap - 40 + rng.usize(81),
                     (_, 2) => cap + rng.usize(2 * cap + 1),
+                    // far larger than the buffer (multiples of its capacity and beyond any internal
+                    // piece size), around 4*cap and 8*cap exactly
+                    (_, 3) if rng.chance(1, 8) => match rng.below(4) {
+                        0 => 4 * cap - 2 + rng.usize(5),
+                        1 => 8 * cap - 2 + rng.usize(5),
+                        2 => 4 * cap + 1 + rng.usize(8 * cap),
+                        _ => (1 << 20) + rng.usize(3),
+                    },
                     (_, 3) => rng.usize(3 * cap + 1),
                     (1, _) => 1000 + rng.usize(4000),
                     (_, 4..=5) => rng.usize(2000),
